@@ -3,8 +3,7 @@ open Td
 #print axioms diffTree_applies
 #print axioms filtered_applies
 -- non-vacuity
-example : Sane ⟨["vendor/", "dir/sub"], true, false⟩ := by
-  refine ⟨?_, fun _ => rfl⟩
+example : Sane ⟨["vendor/", "dir/sub"], true, true⟩ := by
   intro d hd; simp at hd; rcases hd with rfl | rfl <;> decide
--- the `^$` whitelist: a configuration that is NOT sane lets an insertion through although its path fails the filter
-example : keep ⟨[], true, true⟩ ⟨none, some ⟨"a.go", 1, 33188, false, false, false⟩⟩ = true := by decide
+-- the `^$` whitelist (matches only the empty name): since fix D17 an insertion whose path fails the filter is dropped
+example : keep ⟨[], true, true⟩ ⟨none, some ⟨"a.go", 1, 33188, false, false, false⟩⟩ = false := by decide
